@@ -154,6 +154,10 @@ def get_template_locals(real_locals: t.Mapping[str, t.Any]) -> dict[str, t.Any]:
         try:
             _, depth_str, name = name.split("_", 2)
             depth = int(depth_str)
+
+            if name[:1] == "0":
+                # a name that is not in NFKC form, see Symbols._define_ref
+                name = bytes.fromhex(name[1:]).decode()
         except ValueError:
             continue
 
